@@ -3,6 +3,55 @@
 use super::*;
 use crate::verif_common::*;
 
+fn leaked_env(limit: usize) -> &'static Environment<'static> {
+    let mut env = Environment::empty();
+    env.set_recursion_limit(limit);
+    Box::leak(Box::new(env))
+}
+
+// @verif props=C11 tier=quick cap=600 group=core fns=Context::{incr_depth,decr_depth,depth,check_depth},Environment::set_recursion_limit
+/// One inductive step of the depth accounting from an ARBITRARY state satisfying the invariant
+/// depth() <= recursion_limit <= 500: after incr_depth(delta) (any delta up to limit+16, which covers the
+/// include cost 10, the macro cost 4 and eval_macro's `caller depth + 4`) either Ok and depth() == old + delta
+/// <= limit, or Err("recursion limit exceeded") and the depth is unchanged; decr_depth undoes it exactly;
+/// set_recursion_limit(n) never stores more than 500 for ANY n.
+#[kani::proof]
+#[kani::unwind(4)]
+#[kani::stub(std::hash::RandomState::new, crate::verif_common::random_state_stub)]
+fn c11_depth_guard_inductive_step() {
+    let requested: usize = kani::any();
+    let env = leaked_env(requested);
+    let limit = env.recursion_limit();
+    assert!(limit <= 500);
+    assert!(limit == requested || requested > 500);
+    let mut ctx = Context::new(env);
+    assert!(ctx.recursion_limit == limit);
+    let pre: usize = kani::any();
+    kani::assume(pre <= limit);
+    ctx.outer_stack_depth = pre;
+    assert!(ctx.depth() == pre);
+    let delta: usize = kani::any();
+    kani::assume(delta <= limit + 16);
+    let r = ctx.incr_depth(delta);
+    match r {
+        Ok(()) => {
+            assert!(ctx.depth() == pre + delta);
+            assert!(ctx.depth() <= limit);
+            ctx.decr_depth(delta);
+            assert!(ctx.depth() == pre);
+        }
+        Err(ref e) => {
+            assert!(pre + delta > limit);
+            assert!(ctx.depth() == pre);
+            assert!(matches!(e.kind(), ErrorKind::InvalidOperation));
+        }
+    }
+    kani::cover!(r.is_ok() && delta == 10);
+    kani::cover!(r.is_err() && delta == 4);
+    kani::cover!(requested > 500);
+    core::mem::forget((r, ctx));
+}
+
 #[cfg(test)]
 mod playback {
     use super::*;
